@@ -107,8 +107,8 @@ func oracleC18(f *sessionFam, w *World, res *Result) []Violation {
 					break
 				}
 			}
-			if next == nil && res.Outcome == "fail" {
-				continue // the run was cut short by a runtime failure (reported on its own)
+			if next == nil && (res.Outcome == "fail" || res.Outcome == "steps" || res.Outcome == "yields") {
+				continue // the run was cut short (a runtime failure, reported on its own, or the exploration's step bound)
 			}
 			if next == nil || readerRe.ReplaceAllString(strings.Join(sf[i].P, "\x00"), "reader") != readerRe.ReplaceAllString(strings.Join(next.P, "\x00"), "reader") {
 				l.add("server-flush-same-packets", "", fmt.Sprintf("%s: flush #%d on the session is not followed by a server-level flush with the same packets", a, sf[i].Seq))
